@@ -26,6 +26,18 @@ def registry():
     return _REG[0]
 
 
+_PLACEHOLDERS = {}
+
+
+def _placeholder(name):
+    ph = _PLACEHOLDERS.get(name)
+    if ph is None:
+        ph = 'pvcustomunit%d' % len(_PLACEHOLDERS)
+        registry().define('%s = [pvcustomdim%d]' % (ph, len(_PLACEHOLDERS)))
+        _PLACEHOLDERS[name] = ph
+    return ph
+
+
 class Units(object):
     """unit algebra backed by the pint registry's metadata"""
     def __init__(self):
@@ -37,11 +49,20 @@ class Units(object):
         for nm in self.custom:
             if s == nm:
                 return {nm: F(1)}
+        # names defined on *this* converter's registry take precedence inside compound strings too ('1/dc', 'dc**3'):
+        # they are parsed through placeholders that exist in the shared stock registry only under a mangled name
+        back = {}
+        text = s
+        for nm in sorted(self.custom, key=len, reverse=True):
+            if re.search(r'(?<![A-Za-z0-9_])%s(?![A-Za-z0-9_])' % re.escape(nm), text):
+                ph = _placeholder(nm)
+                text = re.sub(r'(?<![A-Za-z0-9_])%s(?![A-Za-z0-9_])' % re.escape(nm), ph, text)
+                back[ph] = nm
         try:
-            uc = ureg.parse_units(s)
+            uc = ureg.parse_units(text)
         except Exception as e:
             raise Raised(type(e).__name__, '%r: %s' % (s, e))
-        return {str(k): F(v).limit_denominator(1000) for k, v in dict(uc._units).items()}
+        return {back.get(str(k), str(k)): F(v).limit_denominator(1000) for k, v in dict(uc._units).items()}
 
     def base(self, name):
         """(factor NF, dims, offset or None) of one canonical unit name"""
@@ -249,6 +270,21 @@ def install(ip, units):
         r.attrs['normalised'] = tgt.v
         return r
     ip.natives[('Quantity', 'to')] = to
+
+    def ito(ip2, o, args, kwargs, node):
+        # in-place conversion: pint rescales an ndarray magnitude in its own memory
+        if o.attrs.get('wraps_argument'):
+            ip2.event('inplace-on-argument', 'Quantity', node, why='the quantity wraps the caller\'s array: the in-place conversion '
+                      'rescales the argument itself')
+        if _ityp(o):
+            ip2.event('inplace-int', 'Quantity', node,
+                      why='in-place conversion of a magnitude that still has the dtype of the caller\'s array: numpy refuses to '
+                          'store the rescaled values into an integer array (UFuncTypeError for integer input)')
+        r = to(ip2, o, args, kwargs, node)
+        o.attrs['m'], o.attrs['u'], o.attrs['ityp'] = r.attrs['m'], r.attrs['u'], False
+        o.attrs['normalised'] = r.attrs.get('normalised')
+        return NONE
+    ip.natives[('Quantity', 'ito')] = ito
     ip.natives[('Quantity', 'to_base_units')] = lambda ip2, o, a, k, n: o
 
 
@@ -387,6 +423,64 @@ def rule_conversions(ctx, rule='R17.d'):
                 ctx.holds(rule, construct, '%s: magnitude == %s in %s; linear in the argument' % (tag, N.show(want), unit), m.loc(),
                           key=tag, sample={'method': meth, 'ec_unit': ec_unit, 'magnitude': N.show(got), 'unit': unit})
     ctx.floor(rule, n, 12, 'conversion method x characteristic-energy kind')
+
+
+def rule_call_history(ctx, rule='R17.h'):
+    """a conversion depends on its own arguments only: called after any conversion method (itself included) was called with
+    other arguments on the same converter, it returns the quantity a fresh converter returns (no value cached from an
+    earlier call, no state left behind)"""
+    cls = ctx.prog.cls(UC)
+    n = 0
+
+    def args_for(ip, meth, tag):
+        a = [Num(ip.declare('x' + tag))] + ([Num(ip.declare('diam' + tag))] if meth == 'toVolumeFraction' else [])
+        return a
+
+    def run(meth, before, preset):
+        ip, units, o = make_converter(ctx.prog)
+        ip.preset = list(preset)
+        if before is not None:
+            ip.call(ip.find_method(o, before), args_for(ip, before, '_first'), {})
+        res = ip.call(ip.find_method(o, meth), args_for(ip, meth, ''), {})
+        return ip, res
+
+    def norm(res):
+        if isinstance(res, Obj) and res.cls == 'Quantity':
+            return ('Q', res.attrs['m'], tuple(sorted(res.attrs['u'].items())))
+        if isinstance(res, Num):
+            return ('N', res.t, ())
+        raise Unsupported('conversion returns %r' % (res,))
+
+    present = [m_ for m_ in METHODS if cls.find_method(m_) is not None]
+    for meth in present:
+        m = cls.find_method(meth)
+        construct = '%s.%s' % (UC, meth)
+        try:
+            fresh = [norm(r) for d, i, r in explore(lambda preset: run(meth, None, preset)) if i is not None]
+        except (Unsupported, Raised) as e:
+            ctx.undecided(rule, construct, 'fresh call: %s' % e, m.loc())
+            continue
+        bad, und = [], []
+        for before in present:
+            try:
+                ws = [norm(r) for d, i, r in explore(lambda preset: run(meth, before, preset)) if i is not None]
+            except (Unsupported, Raised) as e:
+                und.append('after %s: %s' % (before, e))
+                continue
+            for k_, mt, u in ws:
+                if not any(k_ == k2 and u == u2 and not P.compare(mt, m2)[0] for k2, m2, u2 in fresh):
+                    bad.append('after %s(other arguments) the result is %s %s where a fresh converter gives %s' % (
+                        before, P.show(mt), dict(u), P.show(fresh[0][1]) if fresh else '?'))
+        if bad:
+            n += 1
+            ctx.violation(rule, construct, 'call-history', '; '.join(bad[:2]), m.loc())
+        elif und:
+            ctx.undecided(rule, construct, '; '.join(und[:2]), m.loc())
+        else:
+            n += 1
+            ctx.holds(rule, construct, 'same quantity after each of the %d conversion methods was called with other arguments first'
+                      % len(present), m.loc())
+    ctx.floor(rule, n, 6, 'conversion methods with a call-history check')
 
 
 def rule_definitions(ctx, rule='R17.c'):
